@@ -1,3 +1,422 @@
-/- C02: property theorems (none yet). -/
+/-
+C02 — Guest memory accesses never leave the linear memory.
+
+Property theorems.  Cores 1 and 4 (interpreter) are about definitions REGENERATED from /repo
+(`Wz.Gen.InterpAddr`, `Wz.Gen.Memory`); cores 2 (front-end bounds-check elision) and 3 (amd64
+address modes) are hand-written models tied to the real code by the harness (hook + end-to-end run).
+-/
+import Wz.Proofs.C02_Interp
+import Wz.Proofs.C02_Amode
+import Wz.Proofs.C02_SafeBounds
+
 namespace Wz.C02
+open Wz.Gen.Memory Wz.Gen.InterpAddr Wz.Model.MemAccess
+
+/-! ## Core 1: interpreter effective address -/
+
+/-- FULL STRENGTH.  For every 32-bit dynamic base and static offset (including ≥ 2^31 and sums that
+pass 2^32), every width below 2^63 and every memory length: the interpreter's scalar access succeeds
+iff `base+off+w ≤ len` over the naturals, and then it addresses exactly `base+off`. -/
+theorem interp_access_exact (base off ea : BitVec 32) (w : Nat) (len : BitVec 64) (hw : w < 2^63) :
+    access base off w len = some ea ↔
+      base.toNat + off.toNat + w ≤ len.toNat ∧ ea.toNat = base.toNat + off.toNat := by
+  unfold access
+  have hwn : (BitVec.ofNat 64 w).toNat = w := by simp [BitVec.toNat_ofNat]; omega
+  cases hp : popMemoryOffset (off.setWidth 64) (base.setWidth 64) with
+  | none =>
+    have := (pop_none_iff base off).mp hp
+    have hl := len.isLt
+    constructor
+    · intro h; cases h
+    · intro ⟨h1, h2⟩
+      have := ea.isLt
+      omega
+  | some ea' =>
+    have ⟨h1, h2⟩ := (pop_iff base off ea').mp hp
+    have hs := hasSize_iff' ea' (BitVec.ofNat 64 w) len (by omega)
+    rw [hwn] at hs
+    by_cases hh : hasSize ea' (BitVec.ofNat 64 w) len = true
+    · simp only [hh, if_true]
+      constructor
+      · intro h
+        injection h with h
+        subst h
+        exact ⟨by have := hs.mp hh; omega, h2⟩
+      · intro ⟨_, h4⟩
+        congr 1
+        apply BitVec.eq_of_toNat_eq
+        omega
+    · have hh' : hasSize ea' (BitVec.ofNat 64 w) len = false := by simpa using hh
+      simp only [hh', Bool.false_eq_true, if_false]
+      constructor
+      · intro h; cases h
+      · intro ⟨h3, _⟩
+        exact absurd (hs.mpr (by omega)) hh
+
+/-- The same, against the specification function the oracle prints (memories have at most 2^32 bytes:
+65536 pages). -/
+theorem interp_access_spec (base off : BitVec 32) (w : Nat) (len : BitVec 64) (hw : w < 2^63)
+    (hw0 : 0 < w) (hlen : len.toNat ≤ 2^32) :
+    (access base off w len).map (·.toNat) = specAccess base.toNat off.toNat w len.toNat := by
+  unfold specAccess
+  cases h : access base off w len with
+  | some ea =>
+    have ⟨h1, h2⟩ := (interp_access_exact base off ea w len hw).mp h
+    simp [h1, h2]
+  | none =>
+    by_cases hc : base.toNat + off.toNat + w ≤ len.toNat
+    · exfalso
+      have hl := len.isLt
+      have : base.toNat + off.toNat < 2^32 ∨ 2^32 ≤ base.toNat + off.toNat := by omega
+      rcases this with hlt | hge
+      · have := (interp_access_exact base off (BitVec.ofNat 32 (base.toNat + off.toNat)) w len hw).mpr
+          ⟨hc, by simp [BitVec.toNat_ofNat]; omega⟩
+        rw [h] at this; cases this
+      · omega  -- base+off ≥ 2^32 cannot satisfy the spec on a memory of at most 2^32 bytes
+    · simp [hc]
+
+/-- trapping leaves memory unchanged: the model has no state to change on `none`; what the real
+code does on that path (`panic` before any write) is checked by the harness (bytes of partially
+out-of-range stores are compared). -/
+theorem interp_trap_is_total (base off : BitVec 32) (w : Nat) (len : BitVec 64) :
+    access base off w len = none ∨ ∃ ea, access base off w len = some ea := by
+  cases access base off w len <;> simp
+
+/-- non-vacuity: an access ending exactly at the end of a 65536-page memory succeeds; one byte
+further traps; a sum that passes 2^32 traps. (tests) -/
+example : access 0xfffffffc#32 0#32 4 0x100000000#64 = some 0xfffffffc#32 := by decide
+example : access 0xfffffffc#32 1#32 4 0x100000000#64 = none := by decide
+example : access 0x80000000#32 0x80000000#32 1 0x100000000#64 = none := by decide
+example : access 0x7fffffff#32 0x80000000#32 1 0x100000000#64 = some 0xffffffff#32 := by decide
+
+/-! ## Core 1b: 128-bit accesses made of two 8-byte pieces -/
+
+/-- the store order of the two pieces (upper half first) -/
+def piecesRev (offset : BitVec 32) : List (BitVec 32) := [offset + 8#32, offset]
+
+/-- TIE (regenerated): what `v128.load`/`v128.store` do on the current tree is one of the modelled
+variants.  `rfl` against `Wz.Gen.InterpAddr`: breaks (broken obligation) if the source changes shape. -/
+theorem gen_v128_offsets : v128LoadOffsets = pieces ∧ v128StoreOffsets = piecesRev := ⟨rfl, rfl⟩
+theorem gen_v128_store_guard : v128StoreGuard = guardRepaired := rfl
+theorem gen_v128_load_guard_variant : v128LoadGuard = guardAsIs ∨ v128LoadGuard = guardRepaired := by
+  first
+    | exact Or.inl rfl
+    | exact Or.inr rfl
+
+theorem guardRepaired_iff (ea : BitVec 32) : guardRepaired ea = true ↔ 2^32 ≤ ea.toNat + 8 := by
+  unfold guardRepaired
+  have := ea.isLt
+  simp only [BitVec.ult, decide_eq_true_eq, BitVec.toNat_add, BitVec.toNat_setWidth, BitVec.toNat_ofNat]
+  omega
+
+private theorem all_pieces (ea : BitVec 32) (len : BitVec 64) (h8 : ea.toNat + 8 < 2^32) :
+    ((pieces ea).all (fun o => hasSize o 8#64 len) = true ↔ ea.toNat + 16 ≤ len.toNat) ∧
+    ((piecesRev ea).all (fun o => hasSize o 8#64 len) = true ↔ ea.toNat + 16 ≤ len.toNat) := by
+  have h1 := hasSize_iff' ea 8#64 len (by decide)
+  have h2 := hasSize_iff' (ea + 8#32) 8#64 len (by decide)
+  have e8 : (8#64).toNat = 8 := by decide
+  have hadd : (ea + 8#32).toNat = ea.toNat + 8 := by
+    simp only [BitVec.toNat_add, BitVec.toNat_ofNat]; omega
+  rw [e8] at h1 h2
+  rw [hadd] at h2
+  simp only [pieces, piecesRev, List.all_cons, List.all_nil, Bool.and_true, Bool.and_eq_true, h1, h2]
+  omega
+
+/-- FULL STRENGTH (repaired variant = v128.store today, v128.load after the fix): with the overflow
+guard, a 128-bit access succeeds iff `base+off+16 ≤ len`, for every memory length up to 2^32 bytes
+(65536 pages). -/
+theorem v128_exact_repaired (base off ea : BitVec 32) (len : BitVec 64) (offs : BitVec 32 → List (BitVec 32))
+    (ho : offs = pieces ∨ offs = piecesRev) (hlen : len.toNat ≤ 2^32) :
+    multi guardRepaired offs base off len = some ea ↔
+      base.toNat + off.toNat + 16 ≤ len.toNat ∧ ea.toNat = base.toNat + off.toNat := by
+  unfold multi
+  cases hp : popMemoryOffset (off.setWidth 64) (base.setWidth 64) with
+  | none =>
+    have := (pop_none_iff base off).mp hp
+    have := ea.isLt
+    constructor
+    · intro h; cases h
+    · intro ⟨_, _⟩; omega
+  | some ea' =>
+    have ⟨h1, h2⟩ := (pop_iff base off ea').mp hp
+    have hl := len.isLt
+    by_cases hg : guardRepaired ea' = true
+    · have := (guardRepaired_iff ea').mp hg
+      simp only [hg, if_true]
+      constructor
+      · intro h; cases h
+      · intro ⟨h3, h4⟩; omega
+    · have hg' : guardRepaired ea' = false := by simpa using hg
+      have h8 : ea'.toNat + 8 < 2^32 := by
+        have hc : ¬ (2^32 ≤ ea'.toNat + 8) := fun h => hg ((guardRepaired_iff ea').mpr h)
+        omega
+      have ⟨ha, hb⟩ := all_pieces ea' len h8
+      have hall : (offs ea').all (fun o => hasSize o 8#64 len) = true ↔ ea'.toNat + 16 ≤ len.toNat := by
+        rcases ho with rfl | rfl
+        · exact ha
+        · exact hb
+      simp only [hg', Bool.false_eq_true, if_false]
+      by_cases hh : (offs ea').all (fun o => hasSize o 8#64 len) = true
+      · simp only [hh, if_true]
+        constructor
+        · intro h; injection h with h; subst h
+          exact ⟨by have := hall.mp hh; omega, h2⟩
+        · intro ⟨_, h4⟩
+          congr 1; apply BitVec.eq_of_toNat_eq; omega
+      · have hh' : (offs ea').all (fun o => hasSize o 8#64 len) = false := by simpa using hh
+        simp only [hh', Bool.false_eq_true, if_false]
+        constructor
+        · intro h; cases h
+        · intro ⟨h3, _⟩; exact absurd (hall.mpr (by omega)) hh
+
+/-- v128.store on the current tree (regenerated guard and offsets): exact. -/
+theorem interp_v128_store_exact (base off ea : BitVec 32) (len : BitVec 64) (hlen : len.toNat ≤ 2^32) :
+    v128Store base off len = some ea ↔
+      base.toNat + off.toNat + 16 ≤ len.toNat ∧ ea.toNat = base.toNat + off.toNat := by
+  unfold v128Store
+  rw [gen_v128_store_guard, gen_v128_offsets.2]
+  exact v128_exact_repaired base off ea len piecesRev (Or.inr rfl) hlen
+
+/-- v128.store never writes one half only: if the first write (upper half) is in range, so is the
+second — "a trapping access leaves memory unchanged". -/
+theorem interp_v128_store_no_partial_write (ea : BitVec 32) (len : BitVec 64)
+    (hg : v128StoreGuard ea = false) (h1 : hasSize (ea + 8#32) 8#64 len = true) :
+    hasSize ea 8#64 len = true := by
+  rw [gen_v128_store_guard] at hg
+  have h8 : ea.toNat + 8 < 2^32 := by
+    have hc : ¬ (2^32 ≤ ea.toNat + 8) := fun h => by
+      have := (guardRepaired_iff ea).mpr h; rw [hg] at this; cases this
+    omega
+  have a := (hasSize_iff' (ea + 8#32) 8#64 len (by decide)).mp h1
+  have hadd : (ea + 8#32).toNat = ea.toNat + 8 := by
+    simp only [BitVec.toNat_add, BitVec.toNat_ofNat]; omega
+  have e8 : (8#64).toNat = 8 := by decide
+  rw [hadd, e8] at a
+  exact (hasSize_iff' ea 8#64 len (by decide)).mpr (by rw [e8]; omega)
+
+/-- PARTIAL (as-is variant of v128.load: no overflow guard).  Exact for every memory of fewer than
+65536 pages.  FULL statement (fails on the pinned tree, see the witness): the same with
+`len.toNat ≤ 2^32`. -/
+theorem interp_v128_load_asis_partial (base off ea : BitVec 32) (len : BitVec 64) (hlen : len.toNat < 2^32) :
+    multi guardAsIs pieces base off len = some ea ↔
+      base.toNat + off.toNat + 16 ≤ len.toNat ∧ ea.toNat = base.toNat + off.toNat := by
+  unfold multi
+  cases hp : popMemoryOffset (off.setWidth 64) (base.setWidth 64) with
+  | none =>
+    have := (pop_none_iff base off).mp hp
+    have := ea.isLt
+    constructor
+    · intro h; cases h
+    · intro ⟨_, _⟩; omega
+  | some ea' =>
+    have ⟨h1, h2⟩ := (pop_iff base off ea').mp hp
+    have hs1 := hasSize_iff' ea' 8#64 len (by decide)
+    have hs2 := hasSize_iff' (ea' + 8#32) 8#64 len (by decide)
+    have e8 : (8#64).toNat = 8 := by decide
+    rw [e8] at hs1 hs2
+    have hadd : (ea' + 8#32).toNat = (ea'.toNat + 8) % 2^32 := by
+      simp only [BitVec.toNat_add, BitVec.toNat_ofNat]
+    rw [hadd] at hs2
+    have hall : (pieces ea').all (fun o => hasSize o 8#64 len) = true ↔ ea'.toNat + 16 ≤ len.toNat := by
+      simp only [pieces, List.all_cons, List.all_nil, Bool.and_true, Bool.and_eq_true, hs1, hs2]
+      omega
+    simp only [guardAsIs, Bool.false_eq_true, if_false]
+    by_cases hh : (pieces ea').all (fun o => hasSize o 8#64 len) = true
+    · simp only [hh, if_true]
+      constructor
+      · intro h; injection h with h; subst h
+        exact ⟨by have := hall.mp hh; omega, h2⟩
+      · intro ⟨_, h4⟩
+        congr 1; apply BitVec.eq_of_toNat_eq; omega
+    · have hh' : (pieces ea').all (fun o => hasSize o 8#64 len) = false := by simpa using hh
+      simp only [hh', Bool.false_eq_true, if_false]
+      constructor
+      · intro h; cases h
+      · intro ⟨h3, _⟩; exact absurd (hall.mpr (by omega)) hh
+
+/-- WITNESS (finding C02a, as-is variant): on a 65536-page memory `v128.load` at 0xfffffff8 does not
+trap although 0xfffffff8+16 > 2^32; its upper half is read from address 0 (offset+8 wraps in uint32). -/
+theorem interp_v128_load_wrap_witness :
+    multi guardAsIs pieces 0xfffffff8#32 0#32 0x100000000#64 = some 0xfffffff8#32 ∧
+    ¬ (0xfffffff8 + 0 + 16 ≤ (0x100000000#64).toNat) ∧
+    multiBytes pieces 0xfffffff8#32 =
+      [4294967288, 4294967289, 4294967290, 4294967291, 4294967292, 4294967293, 4294967294, 4294967295,
+       0, 1, 2, 3, 4, 5, 6, 7] := by decide
+
+/-- The repaired variant traps there. (test of the switch) -/
+example : multi guardRepaired pieces 0xfffffff8#32 0#32 0x100000000#64 = none := by decide
+
+/-- v128.load on the CURRENT tree (regenerated): exact below 65536 pages whichever variant the tree is;
+exact up to 65536 pages when the tree is the repaired variant. -/
+theorem interp_v128_load_current_partial (base off ea : BitVec 32) (len : BitVec 64) (hlen : len.toNat < 2^32) :
+    v128Load base off len = some ea ↔
+      base.toNat + off.toNat + 16 ≤ len.toNat ∧ ea.toNat = base.toNat + off.toNat := by
+  unfold v128Load
+  rw [gen_v128_offsets.1]
+  rcases gen_v128_load_guard_variant with h | h <;> rw [h]
+  · exact interp_v128_load_asis_partial base off ea len hlen
+  · exact v128_exact_repaired base off ea len pieces (Or.inl rfl) (by omega)
+
+/-! ## Core 4: bulk operations -/
+
+/-- FULL STRENGTH: memory.copy traps iff source or destination range leaves the memory (ℕ arithmetic;
+all 32-bit operand values, every length below 2^63). -/
+theorem bulk_copy_exact (n src dst : BitVec 32) (len : BitVec 64) :
+    copyTraps n src dst len = true ↔
+      len.toNat < src.toNat + n.toNat ∨ len.toNat < dst.toNat + n.toNat := by
+  unfold copyTraps memoryCopyTraps
+  have := n.isLt; have := src.isLt; have := dst.isLt
+  simp only [BitVec.ult, Bool.or_eq_true, decide_eq_true_eq, BitVec.toNat_add, BitVec.toNat_setWidth]
+  omega
+
+theorem bulk_fill_exact (n val dst : BitVec 32) (len : BitVec 64) :
+    fillTraps n val dst len = true ↔ len.toNat < dst.toNat + n.toNat := by
+  unfold fillTraps memoryFillTraps
+  have := n.isLt; have := dst.isLt
+  simp only [BitVec.ult, decide_eq_true_eq, BitVec.toNat_add, BitVec.toNat_setWidth]
+  omega
+
+theorem bulk_init_exact (n src dst : BitVec 32) (len dataLen : BitVec 64) :
+    initTraps n src dst len dataLen = true ↔
+      dataLen.toNat < src.toNat + n.toNat ∨ len.toNat < dst.toNat + n.toNat := by
+  unfold initTraps memoryInitTraps
+  have := n.isLt; have := src.isLt; have := dst.isLt
+  simp only [BitVec.ult, Bool.or_eq_true, decide_eq_true_eq, BitVec.toNat_add, BitVec.toNat_setWidth]
+  omega
+
+/-- Summary name used in DESIGN.md. -/
+theorem bulk_range_exact (n src dst : BitVec 32) (len dataLen : BitVec 64) :
+    (copyTraps n src dst len = true ↔ len.toNat < src.toNat + n.toNat ∨ len.toNat < dst.toNat + n.toNat) ∧
+    (fillTraps n src dst len = true ↔ len.toNat < dst.toNat + n.toNat) ∧
+    (initTraps n src dst len dataLen = true ↔ dataLen.toNat < src.toNat + n.toNat ∨ len.toNat < dst.toNat + n.toNat) :=
+  ⟨bulk_copy_exact n src dst len, bulk_fill_exact n src dst len, bulk_init_exact n src dst len dataLen⟩
+
+example : copyTraps 0xffffffff#32 1#32 0#32 0x100000000#64 = false := by decide  -- (test) ends exactly at 2^32
+example : copyTraps 0xffffffff#32 2#32 0#32 0x100000000#64 = true := by decide   -- (test)
+
+/-! ## Core 3: amd64 address-mode folding -/
+
+open Wz.Model.Amode in
+/-- FULL STRENGTH for the REPAIRED variant (`fixed = true`: the tree after swapping the two constant
+cases in `lowerAddendFromInstr`): for every pointer expression of the shapes the front end emits,
+every static offset in [0,2^32) (including ≥ 2^31), every constant (including ≥ 2^31) and every
+content of the 64-bit registers (32-bit values zero-extended in their registers), the lowering does not
+panic and the amode it returns evaluates — with x86-64's sign-extended disp32 — to
+`pointer + zeroExtend offset`. -/
+theorem amode_correct (p : Ptr) (offBase : BitVec 32) (ρ : Nat → BitVec 64)
+    (hs : p.frontendShape = true) (hc : p.clean ρ) :
+    ∃ am, lowerToAddressMode true p offBase = some am ∧
+      am.eval ρ = p.eval ρ + offBase.setWidth 64 :=
+  amode_correct_fixed p offBase ρ hs hc
+
+open Wz.Model.Amode in
+/-- non-vacuity: `memBase + UExtend(Iconst32 0x80000000)` with a huge offset meets the hypotheses. -/
+example : (Ptr.add (.r64 1) (.uext (.c32 0x80000000#32)) 9).frontendShape = true ∧
+    (Ptr.add (.r64 1) (.uext (.c32 0x80000000#32)) 9).clean (fun r => if r = 9 then 0x80000000#64 else 0#64) := by
+  refine ⟨by decide, trivial, trivial, by decide⟩
+
+open Wz.Model.Amode in
+/-- WITNESS (finding F1, as-is variant `fixed = false` = the pinned tree): for
+`Iadd(memBase, UExtend(Iconst32 0x8000_0000))`, offset 0, memBase = 0x1_0000_0000_0000 the amode evaluates
+2 GiB BELOW memBase instead of 2 GiB above it. -/
+theorem amode_bug_witness :
+    let p := Ptr.add (.r64 1) (.uext (.c32 0x80000000#32)) 9
+    let ρ : Nat → BitVec 64 := fun r => if r = 1 then 0x1000000000000#64 else 0#64
+    (lowerToAddressMode false p 0#32).map (·.eval ρ) = some 0xffff80000000#64 ∧
+    p.eval ρ + (0#32).setWidth 64 = 0x1000080000000#64 ∧
+    (lowerToAddressMode true p 0#32).map (·.eval ρ) = some 0x1000080000000#64 := by decide
+
+open Wz.Model.Amode in
+/-- extend-of-constant operands whose top bit is clear (sign- and zero-extension coincide) -/
+def extConstSmall : AExpr → Bool
+  | .uext (.c32 c) => !c.msb
+  | .sext (.c32 c) => !c.msb
+  | _ => true
+
+open Wz.Model.Amode in
+def ptrExtConstSmall : Ptr → Bool
+  | .single a => extConstSmall a
+  | .add a b _ => extConstSmall a && extConstSmall b
+
+open Wz.Model.Amode in
+private theorem lowerAddend_asis_eq (e : AExpr) (h : extConstSmall e = true) :
+    lowerAddend false e = lowerAddend true e := by
+  cases e with
+  | uext x =>
+    cases x with
+    | r32 r => rfl
+    | c32 c =>
+      simp only [extConstSmall, Bool.not_eq_true'] at h
+      simp [lowerAddend, lowerAddendFromInstr, sext_small32 c h]
+  | sext x =>
+    cases x with
+    | r32 r => rfl
+    | c32 c =>
+      simp only [extConstSmall, Bool.not_eq_true'] at h
+      simp [lowerAddend, lowerAddendFromInstr, sext_small32 c h]
+  | r64 r => rfl
+  | k64 c m => cases m <;> rfl
+  | k32 c m => cases m <;> rfl
+  | shl x a => cases a <;> rfl
+
+open Wz.Model.Amode in
+/-- PARTIAL (as-is variant = the pinned tree): correct whenever no constant under an extend has its
+top bit set.  FULL statement = `amode_correct` with `fixed = false`; it fails: `amode_bug_witness`. -/
+theorem amode_correct_asis_partial (p : Ptr) (offBase : BitVec 32) (ρ : Nat → BitVec 64)
+    (hs : p.frontendShape = true) (hc : p.clean ρ) (hk : ptrExtConstSmall p = true) :
+    ∃ am, lowerToAddressMode false p offBase = some am ∧
+      am.eval ρ = p.eval ρ + offBase.setWidth 64 := by
+  have : lowerToAddressMode false p offBase = lowerToAddressMode true p offBase := by
+    cases p with
+    | single a =>
+      simp only [ptrExtConstSmall] at hk
+      simp [lowerToAddressMode, lowerAddend_asis_eq a hk]
+    | add a b self =>
+      simp only [ptrExtConstSmall, Bool.and_eq_true] at hk
+      simp [lowerToAddressMode, lowerAddend_asis_eq a hk.1, lowerAddend_asis_eq b hk.2]
+  rw [this]
+  exact amode_correct_fixed p offBase ρ hs hc
+
+open Wz.Model.Amode in
+/-- The shape hypothesis is needed (and is what the Go code silently assumes): a matched `Ishl` by a
+constant > 3 is dropped by `lowerAddendFromInstr` (the register of its operand is used unshifted). -/
+theorem amode_shape_needed_witness :
+    let p := Ptr.add (.r64 1) (.shl (.xr 2) (.ac 4#64)) 9
+    let ρ : Nat → BitVec 64 := fun r => if r = 2 then 1#64 else 0#64
+    (lowerToAddressMode true p 0#32).map (·.eval ρ) = some 1#64 ∧ p.eval ρ = 16#64 := by decide
+
+/-! ## Core 2: front-end bounds-check elision (known safe bounds) -/
+
+open Wz.Model.SafeBounds in
+/-- FULL STRENGTH (about the model).  For EVERY op list along a path (accesses, calls/grows that may
+move and enlarge the memory arbitrarily, block entries with arbitrary end states of the other
+predecessors, loop back edges), every valuation of the SSA values and every start memory: every access
+that is performed (checked or elided) satisfies `val v + off + size ≤ len_now` and uses the host
+address `base_now + val v`.  `run = some _` only excludes ill-formed paths (a memory that shrinks, a
+loop-back target that carries absolute addresses: loop headers are unsealed when first entered). -/
+theorem frontend_elision_sound (val : Nat → Nat) (ops : List Op) (base len : Nat) (evs : List Ev)
+    (h : run val ops (init base len) = some evs) :
+    ∀ ev ∈ evs, ∀ addr v ceil base' len' chk, ev = Ev.ok addr v ceil base' len' chk →
+      val v + ceil ≤ len' ∧ addr = base' + val v := by
+  have hI : Inv val (init base len).dyn (init base len).st :=
+    ⟨rfl, rfl, by intro e he; cases he⟩
+  have hH : HistOK val (init base len).dyn.len (init base len).hist := by
+    intro s hs; cases hs
+  exact run_sound val ops (init base len) evs hI hH h
+
+open Wz.Model.SafeBounds in
+/-- non-vacuity (test): a path with an elided check, a call that moves and grows the memory, a block
+merge that lowers the bound, and a loop back edge is well-formed, and the elision really happens
+(`false` = no check emitted) and the re-derived address follows the moved base. -/
+example :
+    run (fun _ => 5) [.access 0 0 8, .access 0 4 4, .call 7000 131072, .access 0 0 8,
+        .enterBlock [[⟨0, 4, none⟩]] true, .access 0 0 8, .enterBlock [] false, .access 0 0 4, .loopBack 6, .access 0 0 8]
+      (init 1000 65536) =
+    some [.ok 1005 0 8 1000 65536 true, .ok 1005 0 8 1000 65536 false, .ok 7005 0 8 7000 131072 false,
+          .ok 7005 0 8 7000 131072 true, .ok 7005 0 4 7000 131072 false, .ok 7005 0 8 7000 131072 false] := by decide
+
+open Wz.Model.SafeBounds in
+/-- (test) an out-of-range access traps and ends the path. -/
+example : run (fun _ => 65533) [.access 0 0 4] (init 1000 65536) = some [.trap 0 4] := by decide
+
 end Wz.C02
